@@ -13,10 +13,11 @@ the theorems of `Props/C04.lean` are about.
     aliases, verbatim fragments, LIKE patterns, nested SQL text, parameter values and column lists. Obligations: every site
     is classified by a row of `rows` (`translate_sites_classified`), no row is stale (`rows_all_live`), every row carrying
     user text names the escaping that applies or the known finding it is (`user_text_rows_escaped`), and the findings named
-    by rows are exactly the six known C04 findings (`known_findings_are_rows`). Literal constructions (`pgsql.NewLiteral`,
+    by rows are exactly the known C04 findings (`known_findings_are_rows`). Literal constructions (`pgsql.NewLiteral`,
     `AsLiteral`, `pgsql.Literal{}`) need no row: whatever their value is, it is written by `formatValue` (part 1).
 -/
 import Dawgs.Generated.C04Sites
+import Dawgs.Props.C04
 namespace Dawgs.C04.Sites
 open Dawgs.Generated.C04Sites
 
@@ -198,11 +199,131 @@ def rows : List Row := [
   ⟨"shape", "expansion.go", "materializedEndpointPairFilterStatement", "expansionRootID,expansionTerminalID", "", "const", "generated", "",
     "constant column names of the translator / schema"⟩,
   ⟨"shape", "model.go", "expansionColumns", "expansionRootID,expansionNextID,expansionDepth,expansionSatisfied,expansionIsCycle,expansionPath", "", "const", "generated", "",
-    "constant column names of the translator / schema"⟩
+    "constant column names of the translator / schema"⟩,
+  -- (3) entry points that do not pass the Cypher lexer: query/v2, query, the pg driver's statement builders
+  ⟨"guard", "query/v2/query.go", "validateRuntimeIdentifiers", "alias.value", "validateCypherSymbol ; \"scope alias \" + alias.role", "const", "generated", "",
+    "call of the builder's guard (the site that protects the symbol rows)"⟩,
+  ⟨"guard", "query/v2/query.go", "Build", "matchIdentifiers", "validateKnownIdentifiers", "const", "generated", "",
+    "call of the builder's guard (the site that protects the symbol rows)"⟩,
+  ⟨"guard", "query/v2/util.go", "prepareNodePattern", "seen", "validateBoundIdentifiers", "const", "generated", "",
+    "call of the builder's guard (the site that protects the symbol rows)"⟩,
+  ⟨"guard", "query/v2/util.go", "prepareRelationshipPattern", "seen", "validateBoundIdentifiers", "const", "generated", "",
+    "call of the builder's guard (the site that protects the symbol rows)"⟩,
+  ⟨"guard", "query/v2/util.go", "prepareCreateRelationshipMatch", "seen", "validateBoundIdentifiers", "const", "generated", "",
+    "call of the builder's guard (the site that protects the symbol rows)"⟩,
+  ⟨"guard", "query/v2/util.go", "projectionItemFromValue", "projectionItem.Alias.Symbol", "validateCypherSymbol ; \"projection alias\"", "const", "generated", "",
+    "call of the builder's guard (the site that protects the symbol rows)"⟩,
+  ⟨"guard", "query/v2/util.go", "Enter", "parameter.Symbol", "validateCypherSymbol ; \"parameter\"", "const", "generated", "",
+    "call of the builder's guard (the site that protects the symbol rows)"⟩,
+  ⟨"pgraw", "drivers/pg/model/format.go", "IndexName", "table", "", "schema-config", "none", "",
+    "index / constraint names and the indexed field come from the graph schema definition given to AssertSchema (deployment-time configuration, not query text): written without quoting; outside the quantifier of C04 (accepted queries), listed so that a change here is seen"⟩,
+  ⟨"pgraw", "drivers/pg/model/format.go", "IndexName", "index.Field", "", "schema-config", "none", "",
+    "index / constraint names and the indexed field come from the graph schema definition given to AssertSchema (deployment-time configuration, not query text): written without quoting; outside the quantifier of C04 (accepted queries), listed so that a change here is seen"⟩,
+  ⟨"pgraw", "drivers/pg/model/format.go", "ConstraintName", "table", "", "schema-config", "none", "",
+    "index / constraint names and the indexed field come from the graph schema definition given to AssertSchema (deployment-time configuration, not query text): written without quoting; outside the quantifier of C04 (accepted queries), listed so that a change here is seen"⟩,
+  ⟨"pgraw", "drivers/pg/model/format.go", "ConstraintName", "constraint.Field", "", "schema-config", "none", "",
+    "index / constraint names and the indexed field come from the graph schema definition given to AssertSchema (deployment-time configuration, not query text): written without quoting; outside the quantifier of C04 (accepted queries), listed so that a change here is seen"⟩,
+  ⟨"pgraw", "drivers/pg/query/format.go", "formatDropPropertyIndex", "indexName", "", "schema-config", "none", "",
+    "index / constraint names and the indexed field come from the graph schema definition given to AssertSchema (deployment-time configuration, not query text): written without quoting; outside the quantifier of C04 (accepted queries), listed so that a change here is seen"⟩,
+  ⟨"pgraw", "drivers/pg/query/format.go", "formatDropPropertyConstraint", "constraintName", "", "schema-config", "none", "",
+    "index / constraint names and the indexed field come from the graph schema definition given to AssertSchema (deployment-time configuration, not query text): written without quoting; outside the quantifier of C04 (accepted queries), listed so that a change here is seen"⟩,
+  ⟨"pgraw", "drivers/pg/query/format.go", "formatCreatePropertyConstraint", "constraintName", "", "schema-config", "none", "",
+    "index / constraint names and the indexed field come from the graph schema definition given to AssertSchema (deployment-time configuration, not query text): written without quoting; outside the quantifier of C04 (accepted queries), listed so that a change here is seen"⟩,
+  ⟨"pgraw", "drivers/pg/query/format.go", "formatCreatePropertyConstraint", "tableName", "", "schema-config", "none", "",
+    "index / constraint names and the indexed field come from the graph schema definition given to AssertSchema (deployment-time configuration, not query text): written without quoting; outside the quantifier of C04 (accepted queries), listed so that a change here is seen"⟩,
+  ⟨"pgraw", "drivers/pg/query/format.go", "formatCreatePropertyConstraint", "pgIndexType", "", "const", "generated", "",
+    "constant of the driver / text assembled from the rows above"⟩,
+  ⟨"pgraw", "drivers/pg/query/format.go", "formatCreatePropertyConstraint", "pgPropertiesColumn", "", "const", "generated", "",
+    "constant of the driver / text assembled from the rows above"⟩,
+  ⟨"pgraw", "drivers/pg/query/format.go", "formatCreatePropertyConstraint", "fieldName", "", "schema-config", "none", "",
+    "index / constraint names and the indexed field come from the graph schema definition given to AssertSchema (deployment-time configuration, not query text): written without quoting; outside the quantifier of C04 (accepted queries), listed so that a change here is seen"⟩,
+  ⟨"pgraw", "drivers/pg/query/format.go", "formatCreatePropertyIndex", "indexName", "", "schema-config", "none", "",
+    "index / constraint names and the indexed field come from the graph schema definition given to AssertSchema (deployment-time configuration, not query text): written without quoting; outside the quantifier of C04 (accepted queries), listed so that a change here is seen"⟩,
+  ⟨"pgraw", "drivers/pg/query/format.go", "formatCreatePropertyIndex", "tableName", "", "schema-config", "none", "",
+    "index / constraint names and the indexed field come from the graph schema definition given to AssertSchema (deployment-time configuration, not query text): written without quoting; outside the quantifier of C04 (accepted queries), listed so that a change here is seen"⟩,
+  ⟨"pgraw", "drivers/pg/query/format.go", "formatCreatePropertyIndex", "pgIndexType", "", "const", "generated", "",
+    "constant of the driver / text assembled from the rows above"⟩,
+  ⟨"pgraw", "drivers/pg/query/format.go", "formatCreatePropertyIndex", "pgPropertiesColumn", "", "const", "generated", "",
+    "constant of the driver / text assembled from the rows above"⟩,
+  ⟨"pgraw", "drivers/pg/query/format.go", "formatCreatePropertyIndex", "fieldName", "", "schema-config", "none", "",
+    "index / constraint names and the indexed field come from the graph schema definition given to AssertSchema (deployment-time configuration, not query text): written without quoting; outside the quantifier of C04 (accepted queries), listed so that a change here is seen"⟩,
+  ⟨"pgraw", "drivers/pg/query/format.go", "formatCreatePropertyIndex", "queryPartial", "", "const", "generated", "",
+    "constant of the driver / text assembled from the rows above"⟩,
+  ⟨"pgraw", "drivers/pg/query/format.go", "formatCreatePartitionTable", "name", "", "const", "generated", "",
+    "partition / staging table names are derived by the driver: node_<graph id>, edge_<graph id>, node_update_staging"⟩,
+  ⟨"pgraw", "drivers/pg/query/format.go", "formatCreatePartitionTable", "parent", "", "const", "generated", "",
+    "partition / staging table names are derived by the driver: node_<graph id>, edge_<graph id>, node_update_staging"⟩,
+  ⟨"pgraw", "drivers/pg/query/format.go", "formatCreatePartitionTable", "strconv.FormatInt(int64(graphID), 10)", "", "const", "generated", "",
+    "formatted number"⟩,
+  ⟨"pgraw", "drivers/pg/query/format.go", "formatConflictMatcher", "propertyName", "", "outside-quantifier", "none", "",
+    "outside-quantifier: driver batch API, not query text — the identity property names of graph.NodeUpdate / RelationshipUpdate batches are concatenated between two apostrophes (properties->>'NAME') without quote doubling; C04 quantifies over the positions of an accepted query, so nothing is demanded here; what the lexer sees is recorded as evidence observations.outside_quantifier"⟩,
+  ⟨"pgraw", "drivers/pg/query/format.go", "formatConflictMatcher", "defaultOnConflict", "", "const", "generated", "",
+    "constant of the driver / text assembled from the rows above"⟩,
+  ⟨"pgraw", "drivers/pg/query/format.go", "FormatNodesUpdate", "graphTarget.Partitions.Node.Name", "", "const", "generated", "",
+    "partition / staging table names are derived by the driver: node_<graph id>, edge_<graph id>, node_update_staging"⟩,
+  ⟨"pgraw", "drivers/pg/query/format.go", "FormatCreateNodeUpdateStagingTable", "stagingTable", "", "const", "generated", "",
+    "partition / staging table names are derived by the driver: node_<graph id>, edge_<graph id>, node_update_staging"⟩,
+  ⟨"pgraw", "drivers/pg/query/format.go", "FormatMergeNodeLargeUpdate", "graphTarget.Partitions.Node.Name", "", "const", "generated", "",
+    "partition / staging table names are derived by the driver: node_<graph id>, edge_<graph id>, node_update_staging"⟩,
+  ⟨"pgraw", "drivers/pg/query/format.go", "FormatMergeNodeLargeUpdate", "stagingTable", "", "const", "generated", "",
+    "partition / staging table names are derived by the driver: node_<graph id>, edge_<graph id>, node_update_staging"⟩,
+  ⟨"pgraw", "drivers/pg/query/format.go", "FormatNodeUpsert", "graphTarget.Partitions.Node.Name", "", "const", "generated", "",
+    "partition / staging table names are derived by the driver: node_<graph id>, edge_<graph id>, node_update_staging"⟩,
+  ⟨"pgraw", "drivers/pg/query/format.go", "FormatNodeUpsert", "formatConflictMatcher(identityProperties, \"id, graph_id\")", "", "const", "generated", "",
+    "constant of the driver / text assembled from the rows above"⟩,
+  ⟨"pgraw", "drivers/pg/query/format.go", "FormatRelationshipPartitionUpsert", "graphTarget.Partitions.Edge.Name", "", "const", "generated", "",
+    "partition / staging table names are derived by the driver: node_<graph id>, edge_<graph id>, node_update_staging"⟩,
+  ⟨"pgraw", "drivers/pg/query/format.go", "FormatRelationshipPartitionUpsert", "formatConflictMatcher(identityProperties, \"start_id, end_id, kind_id, graph_id\")", "", "const", "generated", "",
+    "constant of the driver / text assembled from the rows above"⟩,
+  ⟨"symbol", "query/builder.go", "prepareMatch", "NodeSymbol", "", "const", "generated", "",
+    "one of the v1 builder's fixed symbols n/s/r/e/p"⟩,
+  ⟨"symbol", "query/builder.go", "prepareMatch", "EdgeStartSymbol", "", "const", "generated", "",
+    "one of the v1 builder's fixed symbols n/s/r/e/p"⟩,
+  ⟨"symbol", "query/builder.go", "prepareMatch", "EdgeSymbol", "", "const", "generated", "",
+    "one of the v1 builder's fixed symbols n/s/r/e/p"⟩,
+  ⟨"symbol", "query/builder.go", "prepareMatch", "EdgeEndSymbol", "", "const", "generated", "",
+    "one of the v1 builder's fixed symbols n/s/r/e/p"⟩,
+  ⟨"symbol", "query/builder.go", "prepareMatch", "PathSymbol", "", "const", "generated", "",
+    "one of the v1 builder's fixed symbols n/s/r/e/p"⟩,
+  ⟨"symbol", "query/identifiers.go", "Variable", "name", "", "caller-name", "guard:scope-resolution", "",
+    "v1 has no aliases: a variable name that is not one of n/s/r/e/p is bound by no pattern and the translator refuses it (unable to resolve identifier); measured by the builder.v1.variable cases"⟩,
+  ⟨"symbol", "query/model.go", "HasRelationships", "reference.Symbol", "", "caller-name", "guard:scope-resolution", "",
+    "copy of the symbol of a caller-made variable; same resolution rule"⟩,
+  ⟨"symbol", "query/model.go", "NodePattern", "NodeSymbol", "", "const", "generated", "",
+    "one of the v1 builder's fixed symbols n/s/r/e/p"⟩,
+  ⟨"symbol", "query/model.go", "StartNodePattern", "EdgeStartSymbol", "", "const", "generated", "",
+    "one of the v1 builder's fixed symbols n/s/r/e/p"⟩,
+  ⟨"symbol", "query/model.go", "EndNodePattern", "EdgeEndSymbol", "", "const", "generated", "",
+    "one of the v1 builder's fixed symbols n/s/r/e/p"⟩,
+  ⟨"symbol", "query/model.go", "RelationshipPattern", "EdgeSymbol", "", "const", "generated", "",
+    "one of the v1 builder's fixed symbols n/s/r/e/p"⟩,
+  ⟨"symbol", "query/model.go", "Create", "typedElement.Symbol", "", "caller-name", "guard:scope-resolution", "",
+    "copy of the symbol of a caller-made variable; same resolution rule"⟩,
+  ⟨"symbol", "query/v2/compat.go", "Variable", "name", "", "caller-name", "guard:known-identifiers", "",
+    "free variable name; Build refuses every variable that is not one of the scope's five identifiers (validateKnownIdentifiers / validateBoundIdentifiers)"⟩,
+  ⟨"symbol", "query/v2/compat.go", "HasRelationships", "variable.Symbol", "", "caller-name", "guard:known-identifiers", "",
+    "copy of the symbol of a variable that was already checked as a known identifier"⟩,
+  ⟨"symbol", "query/v2/query.go", "Path", "s.path", "", "caller-name", "guard:validateCypherSymbol", "C04:builder.v2.scope:case-folded-identifier",
+    "scope alias given to NewScope; every scope alias is checked by validateRuntimeIdentifiers -> validateCypherSymbol (guard row query.go validateRuntimeIdentifiers) and Build refuses a scope with errors; an accepted name is a bare name, written verbatim (case-folded by the server)"⟩,
+  ⟨"symbol", "query/v2/query.go", "Node", "s.node", "", "caller-name", "guard:validateCypherSymbol", "C04:builder.v2.scope:case-folded-identifier",
+    "scope alias given to NewScope; every scope alias is checked by validateRuntimeIdentifiers -> validateCypherSymbol (guard row query.go validateRuntimeIdentifiers) and Build refuses a scope with errors; an accepted name is a bare name, written verbatim (case-folded by the server)"⟩,
+  ⟨"symbol", "query/v2/query.go", "Start", "s.start", "", "caller-name", "guard:validateCypherSymbol", "C04:builder.v2.scope:case-folded-identifier",
+    "scope alias given to NewScope; every scope alias is checked by validateRuntimeIdentifiers -> validateCypherSymbol (guard row query.go validateRuntimeIdentifiers) and Build refuses a scope with errors; an accepted name is a bare name, written verbatim (case-folded by the server)"⟩,
+  ⟨"symbol", "query/v2/query.go", "Relationship", "s.relationship", "", "caller-name", "guard:validateCypherSymbol", "C04:builder.v2.scope:case-folded-identifier",
+    "scope alias given to NewScope; every scope alias is checked by validateRuntimeIdentifiers -> validateCypherSymbol (guard row query.go validateRuntimeIdentifiers) and Build refuses a scope with errors; an accepted name is a bare name, written verbatim (case-folded by the server)"⟩,
+  ⟨"symbol", "query/v2/query.go", "End", "s.end", "", "caller-name", "guard:validateCypherSymbol", "C04:builder.v2.scope:case-folded-identifier",
+    "scope alias given to NewScope; every scope alias is checked by validateRuntimeIdentifiers -> validateCypherSymbol (guard row query.go validateRuntimeIdentifiers) and Build refuses a scope with errors; an accepted name is a bare name, written verbatim (case-folded by the server)"⟩,
+  ⟨"symbol", "query/v2/query.go", "NamedParameter", "symbol", "", "caller-name", "guard:validateCypherSymbol", "",
+    "parameter symbol; checked by validateCypherSymbol (guard row util.go Enter) and renamed to a generated pN by the translator (C06)"⟩,
+  ⟨"symbol", "query/v2/query.go", "As", "alias", "", "caller-name", "guard:validateCypherSymbol", "C04:builder.v2.alias:case-folded-identifier",
+    "projection alias given to As; checked by projectionItemFromValue -> validateCypherSymbol when the projection is prepared; an accepted name is a bare name, written verbatim (case-folded by the server)"⟩,
+  ⟨"symbol", "query/v2/query.go", "buildCreates", "typedExpression.Symbol", "", "caller-name", "guard:known-identifiers", "",
+    "copy of the symbol of a variable that was already checked as a known identifier"⟩
 ]
 
 def Row.covers (r : Row) (s : Site) : Bool :=
-  r.kind == s.kind && r.file == s.file && r.fn == s.fn && r.expr == s.expr && (s.kind != "like" || r.aux == s.aux)
+  r.kind == s.kind && r.file == s.file && r.fn == s.fn && r.expr == s.expr
+    && ((s.kind != "like" && s.kind != "guard") || r.aux == s.aux)
 
 def classified (s : Site) : Bool := s.kind == "literal" || rows.any (·.covers s)
 
@@ -227,23 +348,28 @@ of the LIKE-escaping case) the row has to be revisited -/
 theorem rows_all_live : staleRows = [] := by decide +kernel
 
 /-- escapings the theorems of Props/C04 are about, or that keep the text out of the SQL text altogether -/
-def modelledEsc : List String := ["emitIdent", "lookup-key", "bound", "formatter", "generated", "datatype-constant"]
+def modelledEsc : List String := ["emitIdent", "lookup-key", "bound", "formatter", "generated", "datatype-constant",
+  -- guards of the entry points that do not pass the Cypher lexer:
+  "guard:validateCypherSymbol",   -- modelled: builderAccepts, theorem builder_name_one_token
+  "guard:known-identifiers",      -- query/v2 Build refuses variables outside the scope's five (guarded) identifiers
+  "guard:scope-resolution"]       -- query (v1): only the fixed symbols are ever bound; anything else is refused by the translator
 
 /-- every row that carries user text says which modelled escaping applies, or is a named known finding -/
 theorem user_text_rows_escaped :
-    rows.filter (fun r => (r.prov == "user-symbol" || r.prov == "user-value" || r.prov == "derived-sql")
+    rows.filter (fun r => (r.prov == "user-symbol" || r.prov == "user-value" || r.prov == "derived-sql" || r.prov == "caller-name")
       && !(modelledEsc.contains r.esc) && r.finding == "") = [] := by decide +kernel
 
 /-- rows without user text carry none of the user escapings by accident -/
 theorem const_rows_are_const :
     rows.filter (fun r => (r.prov == "const" || r.prov == "generated") && !(r.esc == "generated" || r.esc == "datatype-constant")) = [] := by decide +kernel
 
-/-- the findings named by rows are exactly the six known C04 findings (known_findings.json, status known) -/
+/-- the findings named by rows are exactly the known C04 findings (known_findings.json, status known) -/
 theorem known_findings_are_rows :
     ((rows.map (·.finding)).filter (· != "")).eraseDups =
       ["C04:projection.variable:case-folded-identifier", "C04:projection.alias:case-folded-identifier",
        "C04:aggregate_traversal_count.alias:case-folded-identifier", "C04:count_fast_path.alias:case-folded-identifier",
-       "C04:regex_operand:like-escaped-value", "C04:like_operand.function_lhs:unescaped-like-pattern"] := by decide +kernel
+       "C04:regex_operand:like-escaped-value", "C04:like_operand.function_lhs:unescaped-like-pattern",
+       "C04:builder.v2.scope:case-folded-identifier", "C04:builder.v2.alias:case-folded-identifier"] := by decide +kernel
 
 /-- the LIKE rows as regenerated facts: escaping is applied under `if hasLeftPropertyLookup` only, and its operator case
 still contains the regular-expression operator (both findings, read off the source) -/
@@ -255,5 +381,147 @@ theorem like_guards :
        "concat ; case pgsql.OperatorCypherEndsWith ; case pgsql.Literal"] := by decide +kernel
 
 theorem sites_table_nonempty : 100 ≤ sites.length := by decide +kernel
+
+/-- the only unguarded rows are known findings (the LIKE concatenations) or text that is not part of any query: the
+deployment-time schema names and the identity property names of the driver's update batches -/
+theorem unguarded_rows_named :
+    (rows.filter (fun r => r.esc == "none")).all
+      (fun r => r.finding != "" || r.prov == "schema-config" || r.prov == "outside-quantifier") = true := by decide +kernel
+
+/-- rows outside the quantifier name no finding -/
+theorem outside_rows_no_finding :
+    (rows.filter (fun r => r.prov == "schema-config" || r.prov == "outside-quantifier")).all (fun r => r.finding == "") = true := by
+  decide +kernel
+
+/-- every guard the rows rely on is called where the rows say: scope aliases, projection aliases and parameter symbols
+go through validateCypherSymbol; variables through the known/bound identifier checks -/
+theorem guard_calls_in_place :
+    ((sites.filter (fun s => s.kind == "guard")).map (fun s => (s.fn, s.expr, s.aux))) =
+      [("validateRuntimeIdentifiers", "alias.value", "validateCypherSymbol ; \"scope alias \" + alias.role"),
+       ("Build", "matchIdentifiers", "validateKnownIdentifiers"),
+       ("prepareNodePattern", "seen", "validateBoundIdentifiers"),
+       ("prepareRelationshipPattern", "seen", "validateBoundIdentifiers"),
+       ("prepareCreateRelationshipMatch", "seen", "validateBoundIdentifiers"),
+       ("projectionItemFromValue", "projectionItem.Alias.Symbol", "validateCypherSymbol ; \"projection alias\""),
+       ("Enter", "parameter.Symbol", "validateCypherSymbol ; \"parameter\"")] := by decide +kernel
+
+/-! ## (3) the query builder's symbol guard, as regenerated rune classes -/
+
+/-- ASCII members of the Unicode range tables / predicates of Go's `unicode` package (non-ASCII runes are identifier
+characters for PostgreSQL whatever their class, so only the ASCII part of a class matters). `none` = a name this table
+does not know: treated as admitting every ASCII character. -/
+def asciiClass (name : String) : Option (Nat → Bool) :=
+  let letter := fun n => (65 ≤ n && n ≤ 90) || (97 ≤ n && n ≤ 122)
+  let digit := fun n => 48 ≤ n && n ≤ 57
+  let among := fun (cs : List Char) (n : Nat) => cs.any (fun c => c.toNat == n)
+  let sm := among ['+', '<', '=', '>', '|', '~']
+  let sk := among ['^', '`']
+  let sc := among ['$']
+  let po := among ['!', '"', '#', '%', '&', '\'', '*', ',', '.', '/', ':', ';', '?', '@', '\\']
+  let ps := among ['(', '[', '{']
+  let pe := among [')', ']', '}']
+  let pd := among ['-']
+  let pc := among ['_']
+  let none_ := fun (_ : Nat) => false
+  let table : List (String × (Nat → Bool)) := [
+    ("unicode.IsLetter", letter), ("unicode.Letter", letter), ("unicode.L", letter),
+    ("unicode.Lu", fun n => 65 ≤ n && n ≤ 90), ("unicode.Upper", fun n => 65 ≤ n && n ≤ 90), ("unicode.IsUpper", fun n => 65 ≤ n && n ≤ 90),
+    ("unicode.Ll", fun n => 97 ≤ n && n ≤ 122), ("unicode.Lower", fun n => 97 ≤ n && n ≤ 122), ("unicode.IsLower", fun n => 97 ≤ n && n ≤ 122),
+    ("unicode.Lt", none_), ("unicode.Lm", none_), ("unicode.Lo", none_), ("unicode.IsTitle", none_),
+    ("unicode.IsMark", none_), ("unicode.Mark", none_), ("unicode.M", none_), ("unicode.Mn", none_), ("unicode.Mc", none_), ("unicode.Me", none_),
+    ("unicode.IsDigit", digit), ("unicode.Digit", digit), ("unicode.Nd", digit), ("unicode.IsNumber", digit), ("unicode.Number", digit), ("unicode.N", digit),
+    ("unicode.Nl", none_), ("unicode.No", none_),
+    ("unicode.Pc", pc), ("unicode.Pd", pd), ("unicode.Ps", ps), ("unicode.Pe", pe), ("unicode.Pi", none_), ("unicode.Pf", none_), ("unicode.Po", po),
+    ("unicode.IsPunct", fun n => pc n || pd n || ps n || pe n || po n), ("unicode.Punct", fun n => pc n || pd n || ps n || pe n || po n),
+    ("unicode.P", fun n => pc n || pd n || ps n || pe n || po n),
+    ("unicode.Sm", sm), ("unicode.Sc", sc), ("unicode.Sk", sk), ("unicode.So", none_),
+    ("unicode.IsSymbol", fun n => sm n || sc n || sk n), ("unicode.Symbol", fun n => sm n || sc n || sk n), ("unicode.S", fun n => sm n || sc n || sk n),
+    ("unicode.Zs", fun n => n == 32), ("unicode.Zl", none_), ("unicode.Zp", none_),
+    ("unicode.IsSpace", fun n => n == 32 || (9 ≤ n && n ≤ 13)), ("unicode.White_Space", fun n => n == 32 || (9 ≤ n && n ≤ 13)),
+    ("unicode.IsControl", fun n => n < 32 || n == 127), ("unicode.Cc", fun n => n < 32 || n == 127),
+    ("unicode.Other_ID_Start", none_), ("unicode.Other_ID_Continue", none_)]
+  table.lookup name
+
+/-- one disjunct of a guard predicate on the ASCII code `n` -/
+def atomOK (start : Nat → Bool) (atom : String) (n : Nat) : Bool :=
+  match atom.toList with
+  | ['@', 's', 't', 'a', 'r', 't'] => start n
+  | 'e' :: 'q' :: ':' :: rest => rest == [Char.ofNat n]
+  | _ => match asciiClass atom with
+    | some f => f n
+    | none => true
+
+def startAscii (n : Nat) : Bool := guardStart.any (atomOK (fun _ => false) · n)
+def partAscii (n : Nat) : Bool := guardPart.any (atomOK startAscii · n)
+
+/-- the builder's guard `validateCypherSymbol` (over-approximated on non-ASCII runes: all accepted): non-empty, first
+rune in the start class, the others in the part class -/
+def builderStart (c : Char) : Bool := 128 ≤ c.toNat || startAscii c.toNat
+def builderPart (c : Char) : Bool := 128 ≤ c.toNat || partAscii c.toNat
+def builderAccepts (name : Dawgs.C04.Str) : Bool :=
+  match name with
+  | [] => false
+  | c :: cs => builderStart c && cs.all builderPart
+
+-- printed into the build log: the ASCII characters the guard admits that are not PostgreSQL identifier characters
+#eval ((List.range 128).filter (fun n => (startAscii n && !Dawgs.C04.isIdentStart (Char.ofNat n)) || (partAscii n && !Dawgs.C04.isIdentCont (Char.ofNat n)))).map Char.ofNat
+
+/-- THE obligation that goes red when the guard's rune classes are widened (seeded change C04-r3-2: Sc -> Symbol lets
+`+ < = > | ~ ^` and the back-tick through): every ASCII character of the regenerated start / part class is a PostgreSQL
+identifier-start / identifier character -/
+theorem guard_ascii_table :
+    ∀ n : Fin 128, (startAscii n = true → Dawgs.C04.isIdentStart (Char.ofNat n) = true)
+      ∧ (partAscii n = true → Dawgs.C04.isIdentCont (Char.ofNat n) = true) := by decide +kernel
+
+theorem guard_shape :
+    guardBody.contains "idx == 0" ∧ guardBody.contains "isCypherSymbolStart" ∧ guardBody.contains "isCypherSymbolPart"
+      ∧ guardBody.contains "utf8.ValidString" := by decide +kernel
+
+theorem builderStart_identStart (c : Char) (h : builderStart c = true) : Dawgs.C04.isIdentStart c = true := by
+  by_cases hlt : c.toNat < 128
+  · have ht := (guard_ascii_table ⟨c.toNat, hlt⟩).1
+    simp only [Char.ofNat_toNat] at ht
+    have : startAscii c.toNat = true := by
+      simp only [builderStart, Bool.or_eq_true, decide_eq_true_eq] at h
+      rcases h with h | h
+      · omega
+      · exact h
+    exact ht this
+  · simp only [Dawgs.C04.isIdentStart, Bool.or_eq_true, decide_eq_true_eq]
+    exact Or.inr (by omega)
+
+theorem builderPart_identCont (c : Char) (h : builderPart c = true) : Dawgs.C04.isIdentCont c = true := by
+  by_cases hlt : c.toNat < 128
+  · have ht := (guard_ascii_table ⟨c.toNat, hlt⟩).2
+    simp only [Char.ofNat_toNat] at ht
+    have : partAscii c.toNat = true := by
+      simp only [builderPart, Bool.or_eq_true, decide_eq_true_eq] at h
+      rcases h with h | h
+      · omega
+      · exact h
+    exact ht this
+  · simp only [Dawgs.C04.isIdentCont, Dawgs.C04.isIdentStart, Bool.or_eq_true, decide_eq_true_eq]
+    exact Or.inl (Or.inl (Or.inr (by omega)))
+
+/-- a name the builder's guard accepts is a bare name -/
+theorem builder_accepts_bare (name : Dawgs.C04.Str) (h : builderAccepts name = true) : Dawgs.C04.cypherBare name = true := by
+  cases name with
+  | nil => simp [builderAccepts] at h
+  | cons c cs =>
+    simp only [builderAccepts, Bool.and_eq_true, List.all_eq_true] at h
+    simp only [Dawgs.C04.cypherBare, Bool.and_eq_true, List.all_eq_true]
+    exact ⟨builderStart_identStart c h.1, fun d hd => builderPart_identCont d (h.2 d hd)⟩
+
+/-- `identifier_bare` extended from the Cypher grammar's symbol class to the builder's class: a name accepted by
+`validateCypherSymbol` (projection alias, scope alias, parameter symbol of query/v2), written by `formatIdentifier`,
+lexes as exactly ONE PostgreSQL identifier token in identifier context -/
+theorem builder_name_one_token (name pre post : Dawgs.C04.Str) (h : builderAccepts name = true)
+    (hpre : Dawgs.C04.Props.Clean pre) (hpost : Dawgs.C04.identFollow post = true) :
+    Dawgs.C04.lex (pre ++ Dawgs.C04.emitIdent name ++ post)
+      = (Dawgs.C04.run .top pre).1 ++ Dawgs.C04.Tok.word name :: Dawgs.C04.lex post :=
+  Dawgs.C04.Props.identifier_bare name pre post (builder_accepts_bare name h) hpre hpost
+
+example : builderAccepts "total_$".toList = true ∧ builderAccepts "a||b".toList = false ∧ builderAccepts "1a".toList = false
+    ∧ builderAccepts "a`b".toList = false ∧ builderAccepts "bad name".toList = false := by decide +kernel
 
 end Dawgs.C04.Sites
